@@ -171,3 +171,12 @@ Inductive spells_regex : op -> str -> Prop :=
 | sp_extract p : regex_units p = true -> spells_regex (RegexExtract p None) (kw_regex_extract ++ 58 :: p)
 | sp_extract_group p g : regex_units p = true -> N.leb g usize_max = true ->
     spells_regex (RegexExtract p (Some g)) (kw_regex_extract ++ 58 :: p ++ 58 :: print_N g).
+
+(* ---- text arguments written with ANY escapes ------------------------------------------------
+   The documented rule: "\X is X" (\n \t \r are the control characters).  A text argument may
+   therefore be written in many ways -- a\:b, \a\:\b, ... -- all of them raw texts made of
+   escaped pairs and characters other than : | { } (regex_units); its meaning is process_arg. *)
+Definition kw_raw_ops : list (str * (str -> op)) :=
+  [(kw_append, Append); (kw_prepend, Prepend); (kw_surround, Surround); (kw_quote, Surround); (kw_join, Join)].
+Inductive spells_raw : op -> str -> Prop :=
+| sp_raw kw mk a : In (kw, mk) kw_raw_ops -> regex_units a = true -> spells_raw (mk (process_arg a)) (kw ++ 58 :: a).
